@@ -1,7 +1,9 @@
 /* qsbr grace-period scenario: real src/urcu-qsbr.c under the controlled scheduler with simulated store buffers.
    usage: scen_qsbr PROG SCHED ; reader ops: Q rcu_quiescent_state  F rcu_thread_offline  N rcu_thread_online  r/q litmus loads
    (a thread is online after registration); updater op: S = pre_g := 1; synchronize_rcu(); post_g := 1.
-   Implicit sections run between consecutive quiescent points of an online thread. */
+   Implicit sections run between consecutive quiescent points of an online thread.
+   With -DDYNREG (C15): U = rcu_unregister_thread() while online (no explicit offline first), R = rcu_register_thread(); a thread leaves as soon as its
+   program ends, by unregistering directly (the library's unregister must release an updater that waits for it). */
 #include "/repo/src/urcu-qsbr.c"
 #include "sched.h"
 #include <string.h>
@@ -11,7 +13,7 @@ static unsigned long pre[NG], post[NG]; static int ng_total;
 static char *prog[MAXTH]; static int nprog; static int gbase[MAXTH];
 static char tlsname[MAXTH][16], wname[MAXTH][16]; static long updaters_left;
 static void body(int t){
-	int updater = strchr(prog[t],'S') != 0; int g = gbase[t]; int online = 1;
+	int updater = strchr(prog[t],'S') != 0; int g = gbase[t]; int online = 1; int registered = 1;
 	unsigned long vpost[NG], vpre[NG];
 	sprintf(tlsname[t],"rd%d",t); vs_region(&URCU_TLS(urcu_qsbr_reader).ctr,sizeof(unsigned long),tlsname[t]);
 	sprintf(wname[t],"wt%d",t); vs_region(&URCU_TLS(urcu_qsbr_reader).waiting,sizeof(int),wname[t]);
@@ -28,13 +30,22 @@ static void body(int t){
 		case 'q': for(int i=0;i<ng_total;i++) vpre[i]=CMM_LOAD_SHARED(pre[i]); for(int i=0;i<ng_total;i++) vpost[i]=CMM_LOAD_SHARED(post[i]);
 			if(online) for(int i=0;i<ng_total;i++) if(vpost[i]==1 && vpre[i]==0) printf("LITMUS reader %d saw pre_%d=0 then post_%d=1 inside one implicit section\n",t,i,i);
 			break;
+#ifdef DYNREG
+		case 'U': if(registered){ vs_call("unregister",0); urcu_qsbr_unregister_thread(); vs_ret("unregister",0); registered=0; online=0; } break;
+		case 'R': if(!registered){ vs_call("register",0); urcu_qsbr_register_thread(); vs_ret("online",0); registered=1; online=1; } break;
+#endif
 		case 'S': CMM_STORE_SHARED(pre[g],1); vs_call("sync",g); urcu_qsbr_synchronize_rcu(); vs_ret("sync",g); CMM_STORE_SHARED(post[g],1); g++; break;
 		}
 	}
+#ifdef DYNREG
+	(void)updater; if(registered){ vs_call("unregister",0); urcu_qsbr_unregister_thread(); vs_ret("unregister",0); }
+#else
+	(void)registered;
 	vs_call("offline",0); urcu_qsbr_thread_offline(); vs_ret("offline",0);
 	if(updater) uatomic_dec(&updaters_left);
 	while(CMM_LOAD_SHARED(updaters_left)) caa_cpu_relax();
 	urcu_qsbr_unregister_thread();
+#endif
 }
 int main(int argc,char**argv){
 	static char obuf[1<<22]; setvbuf(stdout,obuf,_IOFBF,sizeof obuf);
